@@ -44,7 +44,7 @@ CHECKS = {
    "Trusts: plain-Python evaluation on ints/bools/floats/characters/tuples as the meaning of the generated programs (templates use only operators whose Python value is the meaning at every width); exhaustive tables up to 8 input bits (12 for the typed-argument form used in the diagnosis). Two open known findings (declared Qint width / declared Qfixed type dropped by bind) are matched by their diagnosis only; every other disagreement is a violation.",
    "deterministic simulation: seeded bind histories with fault injection, differential + Python-value oracles"),
  "C14": chk("C14", "DESIGN.md §5",
-   "Model-based state machine run under the seeded simulator: real QCircuit/QCircuitEnhanced objects are driven by generated histories of composition operators (append_circuit with injective remaps, +, +=, += gate tuples incl. one gate object or one wires list used twice, repeat(1..6), copy, copy(vanilla), remove_identities, qft;iqft on any qubit sub-list given as indices or names, add_qubit), builder calls by index or by remembered name, and opaque public mutators (naming, ancilla management, uncompute) on any pool member, mirrored by a reference model (qubit count + unitary composed by the model's own rule + the harness's own name table) and checked after every step over the whole pool: the operator completes (A0), the target/result has the model's unitary (A1, incl. after a later uncompute() following remove_identities), nobody but the target changed structurally or in its bookkeeping (A2); independence over time follows from re-checking after every later mutation. A clean batch is evidence, not proof.",
+   "Model-based state machine run under the seeded simulator: real QCircuit/QCircuitEnhanced objects are driven by generated histories of composition operators (append_circuit with injective remaps, +, +=, += gate tuples incl. one gate object or one wires list used twice, repeat(1..6), copy, copy(vanilla), remove_identities, qft;iqft on any qubit sub-list given as indices or names, add_qubit), builder calls by index or by remembered name, and opaque public mutators (naming, ancilla management, uncompute) on any pool member, with composition operators interrupted (KeyboardInterrupt at a seeded library line) in a separate arm, mirrored by a reference model (qubit count + unitary composed by the model's own rule + the harness's own name table) and checked after every step over the whole pool: the operator completes (A0), the target/result has the model's unitary (A1, incl. after a later uncompute() following remove_identities), nobody but the target changed structurally or in its bookkeeping (A2); independence over time follows from re-checking after every later mutation. A clean batch is evidence, not proof.",
    "Trusts: one gate-list -> matrix function (numpy) shared by model and observer; QCircuit.random and compiled circuits trusted at creation only; remaps injective and in range; repeat for n >= 1; circuits up to 5-6 qubits.",
    "deterministic simulation: seeded operator histories on a circuit pool against a unitary reference model"),
 }
